@@ -62,13 +62,12 @@ Theorem C15_take_rows_total : forall (frs : list frag) (addrs : list N),
 Proof. exact take_rows_total_wf. Qed.
 Print Assumptions C15_take_rows_total.
 
-(* Addresses of fragments that do not exist: dropped or reported as an error, never a panic, as long as
-   at least one address is in bounds and only the last may be u64::MAX. *)
+(* Addresses of fragments that do not exist (the tombstone u64::MAX included, at any position): dropped
+   or reported as an error, never a panic, as long as at least one address is in bounds. *)
 Theorem C15_take_rows_never_panics : forall (frs : list frag) (addrs : list N),
   frags_wf frs = true ->
   (forall a, In a addrs -> addr_in_bounds frs a = true \/ find_frag frs (addr_frag a) = None) ->
   (exists a, In a addrs /\ addr_in_bounds frs a = true) ->
-  Forall (fun a => a + 1 < two64) (removelast addrs) ->
   (do_take_rows frs addrs false = Ok (filter (addr_live frs) addrs) \/
    (do_take_rows frs addrs false = Err /\ forallb (addr_in_bounds frs) addrs = false)).
 Proof. exact take_rows_no_panic_wf. Qed.
@@ -76,23 +75,34 @@ Print Assumptions C15_take_rows_never_panics.
 
 (* ---- take by offset ---- *)
 (* (1) any Ok result is the scan rows at the in-range offsets, in request order, duplicates kept;
-   (2) outside the known class the call IS Ok with those rows, or an error caused by an out-of-range
-       offset; (3) all offsets in range: Ok with exactly one row per offset. *)
+   (2) outside the known class - i.e. as soon as ONE requested offset is in range, or a single offset
+       is requested - the call IS Ok with those rows (out-of-range offsets dropped, wherever they stand
+       in the request), or an error caused by an out-of-range offset;
+   (3) all offsets in range: Ok with exactly one row per offset. *)
 Theorem C15_take_by_offset : forall (frs : list frag) (offs : list N),
   frags_wf frs = true -> scan_len frs < two64 ->
   (forall l, take frs offs = Ok l -> l = expected_rows frs offs) /\
-  (Known_C15_oob_offset_not_last frs offs = false -> take_agrees_with_scan frs offs) /\
+  (Known_C15_all_offsets_oob frs offs = false -> take_agrees_with_scan frs offs) /\
   (forallb (in_range frs) offs = true -> take frs offs = Ok (map (at_offset frs) offs)).
 Proof. exact take_by_offset_wf. Qed.
 Print Assumptions C15_take_by_offset.
 
-(* The faithful model (and the code: reproduced, see KNOWN_FINDINGS) violates the property inside the
-   class: take([3, 0]) on a 3-row table panics instead of returning row 0 or an error. *)
-Theorem C15_oob_offset_not_last_refuted :
+(* Regression for the repaired class oob_offset_not_last (repo commit 33efb4f; it used to be a
+   `last_offset + 1` overflow panic): on a 3-row table take([3, 0]) returns row 0, take([0, 3]) and
+   take([3]) report an error. *)
+Theorem C15_oob_offset_not_last_regression :
+  take refuting_table [3; 0] = Ok [0] /\ take refuting_table [0; 3] = Err /\ take refuting_table [3] = Err /\
+  Known_C15_all_offsets_oob refuting_table [3; 0] = false /\ take_agrees_with_scan refuting_table [3; 0].
+Proof. exact oob_offset_not_last_regression. Qed.
+Print Assumptions C15_oob_offset_not_last_regression.
+
+(* What is left: two or more offsets, ALL out of range. The faithful model (and the code after 33efb4f:
+   reproduced, see KNOWN_FINDINGS) panics - take([3, 3]) on a 3-row table: `batches.pop().unwrap()`. *)
+Theorem C15_all_offsets_oob_refuted :
   exists frs offs, frags_wf frs = true /\ scan_len frs < two64 /\
-    Known_C15_oob_offset_not_last frs offs = true /\ ~ take_agrees_with_scan frs offs.
-Proof. exact oob_offset_not_last_refuted. Qed.
-Print Assumptions C15_oob_offset_not_last_refuted.
+    Known_C15_all_offsets_oob frs offs = true /\ ~ take_agrees_with_scan frs offs.
+Proof. exact all_offsets_oob_refuted. Qed.
+Print Assumptions C15_all_offsets_oob_refuted.
 
 (* ---- take_scan ---- *)
 Theorem C15_take_scan : forall (frs : list frag) (ranges : list (N * N)),
@@ -140,11 +150,11 @@ Definition ex_table : list frag :=
     {| f_id := 1; f_phys := 10; f_del := None |} ].
 Example C15_nonvacuous :
   frags_wf ex_table = true /\ scan_len ex_table = 21 /\
-  Known_C15_oob_offset_not_last ex_table [20; 0; 3; 3; 8; 9; 17; 7] = false /\
+  Known_C15_all_offsets_oob ex_table [20; 0; 3; 3; 8; 9; 17; 7] = false /\
   take ex_table [20; 0; 3; 3; 8; 9; 17; 7]
     = Ok [4294967305; 0; 4; 4; 17179869187; 17179869188; 4294967302; 9] /\
   row_offsets_to_row_addresses ex_table [21; 2] = Ok [TOMBSTONE_ROW; 2] /\
-  take ex_table [2; 21] = Err /\ take ex_table [21; 2] = Panic /\
+  take ex_table [2; 21] = Err /\ take ex_table [21; 2] = Ok [2] /\ take ex_table [21; 22] = Panic /\
   do_take_rows ex_table [6; 3; 4294967296; 3; 17179869184; 17179869187] false = Ok [6; 4294967296; 17179869187] /\
   (exists st, map_offset [3; 5] om_new 3 = Ok (4, st) /\ om_inv [3; 5] st 3) /\
   NoDup [3; 5].
